@@ -51,8 +51,27 @@ def _make_class(spec, classes):
                 cb("init", _n, None)
                 self.f0, self.f1 = f0, f1
         cls = type(name, bases, {"__init__": __init__})
+    # user-defined __new__ only on decorated classes: symbol() wraps whatever __new__ the class defines, whereas an
+    # undecorated subclass with its own __new__ simply bypasses the hybrid constructor (user code, not the library)
+    new_style = spec.get("new") if spec.get("decorated") else None
+    if new_style == "super":
+        # a user __new__ that delegates to the parent's (possibly already hybrid) constructor
+        def __new__(c, *a, **k):
+            return super(cls, c).__new__(c)
+        cls.__new__ = __new__
+    elif new_style == "singleton":
+        # a flyweight constructor: one instance per class, returned again on every construction
+        def __new__(c, *a, **k):
+            inst = c.__dict__.get("_the_one")
+            if inst is None:
+                inst = super(cls, c).__new__(c)
+                c._the_one = inst
+            return inst
+        cls.__new__ = __new__
     if spec.get("decorated"):
         cls = symbol(cls)
+        if spec.get("double_symbol"):
+            cls = symbol(cls)        # decorated twice (e.g. once directly and once by a framework)
     return cls
 
 
@@ -87,7 +106,8 @@ class C14(Prop):
                          "probe:manual_init_class", "probe:dataclass_class", "probe:parent_query_sees_subclass",
                          "probe:abandoned_registry_query", "probe:kwargs_filtered_query",
                          "probe:many_instances_constructed", "probe:multiple_inheritance_class",
-                         "probe:declared_earlier_query_judged"]}
+                         "probe:declared_earlier_query_judged", "probe:constructor_returned_existing_instance",
+                         "probe:user_defined_new"]}
 
     # ------------------------------------------------------------------ generation
     def gen(self, rng, tier, campaign):
@@ -104,7 +124,9 @@ class C14(Prop):
             if base is not None and len(classes) >= 2 and rng.random() < 0.2:
                 cands = [c["name"] for c in classes if c["name"] != base and c["style"] == style]
                 base2 = rng.choice(cands) if cands else None
-            classes.append({"name": f"K{i}", "base": base, "base2": base2, "style": style,
+            new_style = rng.choice([None, None, None, None, None, "super", "singleton"])
+            classes.append({"name": f"K{i}", "base": base, "base2": base2, "style": style, "new": new_style,
+                            "double_symbol": rng.random() < 0.08,
                             "decorated": True if base is None else rng.random() < 0.5,
                             "eq": rng.random() < 0.4,
                             "extra_field": (f"g{i}" if base is not None and rng.random() < 0.3 else None)})
@@ -161,6 +183,8 @@ class C14(Prop):
                 sim.count("probe:manual_init_class" if spec["style"] == "manual" else "probe:dataclass_class")
                 if len(classes[spec["name"]].__bases__) > 1:
                     sim.count("probe:multiple_inheritance_class")
+                if spec.get("new") and spec.get("decorated"):
+                    sim.count("probe:user_defined_new")
         except Exception as e:
             set_current(None)
             res.skipped = True
@@ -196,6 +220,9 @@ class C14(Prop):
                     o = cls(f0=v)
             finally:
                 sim.cb_enabled = False
+            if any(o is x for x in model):
+                sim.count("probe:constructor_returned_existing_instance")
+                return o                  # a flyweight __new__ handed out an instance that is already registered
             labels[id(o)] = f"{cname}#{v}"
             keep.append(o)
             model.append(o)
@@ -287,6 +314,8 @@ class C14(Prop):
                                     if isinstance(o, SymbolicExpression) or type(o) is not head_cls:
                                         sim.count("infer_unexpected_result")
                                         continue
+                                    if any(o is x for x in model):
+                                        continue      # a flyweight constructor returned a registered instance
                                     labels[id(o)] = f"{op[1]}#inf{i}.{n}"
                                     keep.append(o)
                                     model.append(o)
@@ -475,6 +504,14 @@ class C14(Prop):
             if c.get("eq"):
                 p = copy.deepcopy(plan)
                 p["classes"][k]["eq"] = False
+                yield p
+            if c.get("new"):
+                p = copy.deepcopy(plan)
+                p["classes"][k]["new"] = None
+                yield p
+            if c.get("double_symbol"):
+                p = copy.deepcopy(plan)
+                p["classes"][k]["double_symbol"] = False
                 yield p
             if c.get("base") and not c.get("decorated"):
                 pass
